@@ -55,13 +55,23 @@ RecUNK == [sec |-> 1, f |-> <<F("lab", <<1, 97>>), F("ptr", Ptr(16))>> \o RRHead
 RecA2 == [sec |-> 3, f |-> <<F("lab", <<2, 110, 115>>), F("ptr", Ptr(16))>> \o RRHead(1, 1, TTL300)
                          \o <<F("rdlen", U16(4)), F("rd", <<192, 0, 2, 2>>)>>]
 
+\* the records of the UPDATE base spell their owner out (no pointer), so that each stands on
+\* its own when another record is removed
+UName == <<F("lab", Www), F("lab", Example), F("root", <<0>>)>>
+ZoneRec == [sec |-> 0, f |-> <<F("lab", Www), F("lab", Example), F("root", <<0>>), F("type", U16(6)), F("class", U16(1))>>]
+RecPreAny == [sec |-> 1, f |-> UName \o RRHead(1, 255, Zero4) \o <<F("rdlen", U16(0))>>]
+RecA2Upd == [sec |-> 2, f |-> UName \o RRHead(1, 1, TTL300) \o <<F("rdlen", U16(4)), F("rd", <<192, 0, 2, 3>>)>>]
+RecDelNone == [sec |-> 2, f |-> UName \o RRHead(1, 254, Zero4) \o <<F("rdlen", U16(4)), F("rd", <<192, 0, 2, 4>>)>>]
 NoCnt == <<-1, -1, -1, -1>>
 Msg(flags, recs) == [flags |-> flags, recs |-> recs, cnt |-> NoCnt]
 MsgBases == [M1 |-> Msg(256, <<Q>>),
              M2 |-> Msg(33152, <<Q, RecA, RecNS, RecOPT>>),
              M3 |-> Msg(33152, <<Q, RecMX, RecTXT, RecTSIG>>),
              M4 |-> Msg(33152, <<Q, RecUNK, RecA2, RecOPT0>>),
-             M5 |-> Msg(33664, <<Q>>)]                      \* TC set
+             M5 |-> Msg(33664, <<Q>>),                      \* TC set
+             \* RFC 2136 UPDATE (opcode 5): zone section, a prerequisite of class ANY (RRset exists),
+             \* an added record (class IN) and a deleted one (class NONE)
+             M6 |-> Msg(10240, <<ZoneRec, RecPreAny, RecA2Upd, RecDelNone>>)]
 
 RECURSIVE Cat(_)
 Cat(ss) == IF ss = <<>> THEN <<>> ELSE ss[1] \o Cat(Tail(ss))
@@ -113,7 +123,8 @@ EndOfSec(m, sec) == IF \E r \in 1..Len(m.recs) : m.recs[r].sec > sec
    tc            the TC flag is set
    mv r sec      OptInWrongSection / TSIG in a wrong section: record r moved to section sec
    dup r         SecondOpt: record r (an OPT) repeated
-   after r       TsigNotLast: an address record appended after record r (a TSIG) *)
+   after r       TsigNotLast: an address record appended after record r (a TSIG)
+   del r         record r (question / zone record included) removed, its section count with it *)
 FieldFaults(m) ==
     UNION {UNION {{<<"fld", r, i, nb>> : nb \in Variants(m.recs[r].f[i][1], m.recs[r].f[i][2], FieldOff(m, r, i))}
                   : i \in 1..Len(m.recs[r].f)} : r \in 1..Len(m.recs)}
@@ -127,6 +138,7 @@ MsgFaults(m) ==
     \cup {<<"mv", r, sec>> : r \in Special(m), sec \in 1..2}
     \cup {<<"dup", r>> : r \in RecsOfType(m, 41)}
     \cup {<<"after", r>> : r \in RecsOfType(m, 250)}
+    \cup {<<"del", r>> : r \in 1..Len(m.recs)}
 MoveRec(m, r, sec) ==
     LET rec == [m.recs[r] EXCEPT !.sec = sec]
         m2 == [m EXCEPT !.recs = Remove(m.recs, r)]
@@ -138,6 +150,7 @@ ApplyMsg(m, f) ==
       [] f[1] = "mv" -> MoveRec(m, f[2], f[3])
       [] f[1] = "dup" -> [m EXCEPT !.recs = Insert(m.recs, f[2], m.recs[f[2]])]
       [] f[1] = "after" -> [m EXCEPT !.recs = Insert(m.recs, f[2] + 1, RecA2)]
+      [] f[1] = "del" -> [m EXCEPT !.recs = Remove(m.recs, f[2])]
 
 (* ================================================================ wire names, RDATA, options
    namew: [f, cur]: a buffer of name fields, the name to read starts at offset cur.
@@ -234,7 +247,7 @@ ZoneBases ==
         <<T("dir", "$TTL"), T("ttl", "300")>>,
         <<T("owner", "@"), T("class", "IN"), T("type", "SOA"), T("name", "ns"), T("name", "hostmaster"),
           T("int", "1"), T("int", "7200"), T("int", "900"), T("int", "1209600"), T("int", "300")>>,
-        <<T("dir", "$GENERATE"), T("grange", "1-3"), T("gmod", "host${0,2,d}"), T("type", "A"), T("any", "10.0.0.$")>> >>],
+        <<T("dir", "$GENERATE"), T("grange", "1-3"), T("gmod", "host${0,2,d}"), T("type", "A"), T("gmodr", "10.0.0.${0,1}")>> >>],
      \* generic text of a known and of an unknown type
      Z5 |-> [sep |-> " ", nl |-> TRUE, lines |-> <<
         <<T("dir", "$ORIGIN"), T("name", "example.")>>,
@@ -331,6 +344,19 @@ TokVariant(name, s) ==
       [] name = "f-e999" -> "1e999"
       [] name = "f-em999" -> "1e-999"
       [] name = "f-hex" -> "0x1.8p3"
+      \*   the two-field form ${offset,width}, and both forms on the right-hand side
+      [] name = "gm2-offhuge" -> "host${" \o D5000 \o ",2}"
+      [] name = "gm2-widthhuge" -> "host${0," \o D5000 \o "}"
+      [] name = "gm2-off9" -> "host${999999999,2}"
+      [] name = "gm2-width9" -> "host${0,999999999}"
+      [] name = "rm-offhuge" -> "10.0.0.${" \o D5000 \o ",1,d}"
+      [] name = "rm-widthhuge" -> "10.0.0.${0," \o D5000 \o ",d}"
+      [] name = "rm-off9" -> "10.0.0.${999999999,1,d}"
+      [] name = "rm-width9" -> "10.0.0.${0,999999999,d}"
+      [] name = "rm2-offhuge" -> "10.0.0.${" \o D5000 \o ",1}"
+      [] name = "rm2-widthhuge" -> "10.0.0.${0," \o D5000 \o "}"
+      [] name = "rm2-off9" -> "10.0.0.${999999999,1}"
+      [] name = "rm2-width9" -> "10.0.0.${0,999999999}"
       [] name = "altlow" -> "-100001.00m"                 \* below / above what LOC can encode
       [] name = "althigh" -> "42849673.00m"
 EscNames == {"esc0", "esc1", "esc2", "esc256", "esc999", "escbig9", "eschuge"}
@@ -344,14 +370,18 @@ UniEscNames == {"escsup", "esc1sup", "esc12circ", "escnd"}
 ZincNames == {"emptyq", "unterm", "badttl", "bogus", "esc1", "pclose", "popen", "esc1sup"}
 FloatNames == {"f-nan", "f-pnan", "f-nanm", "f-inf", "f-ninf", "f-e999", "f-em999", "f-hex"}
 HugeNames == {"huge5000", "hugeunit", "eschuge", "hugetype", "hugeclass", "gr-stophuge", "gr-starthuge", "gr-stephuge",
-              "gm-offhuge", "gm-widthhuge"}
+              "gm-offhuge", "gm-widthhuge", "gm2-offhuge", "gm2-widthhuge", "rm-offhuge", "rm-widthhuge",
+              "rm2-offhuge", "rm2-widthhuge"}
 VariantsOfRole(role) ==
     CASE role = "label" -> EscNames \cup UniEscNames \cup {"empty", "long"}
       [] role = "ttl" -> EscNames \cup QuoteNames \cup {"badttl", "hugeunit"} \cup NumNames
       [] role = "type" -> EscNames \cup QuoteNames \cup {"bogus", "bigtype", "hugetype"}
       [] role = "class" -> EscNames \cup QuoteNames \cup {"bogus", "bigclass", "hugeclass"}
       [] role = "grange" -> EscNames \cup QuoteNames \cup {"gr-stophuge", "gr-starthuge", "gr-stephuge", "gr-big9", "gr-step9"}
-      [] role = "gmod" -> EscNames \cup QuoteNames \cup {"gm-offhuge", "gm-widthhuge", "gm-off9", "gm-width9"}
+      [] role = "gmod" -> EscNames \cup QuoteNames \cup {"gm-offhuge", "gm-widthhuge", "gm-off9", "gm-width9",
+                                                          "gm2-offhuge", "gm2-widthhuge", "gm2-off9", "gm2-width9"}
+      [] role = "gmodr" -> EscNames \cup QuoteNames \cup {"rm-offhuge", "rm-widthhuge", "rm-off9", "rm-width9",
+                                                           "rm2-offhuge", "rm2-widthhuge", "rm2-off9", "rm2-width9"}
       [] role = "dir" -> {"dirgarbage", "emptyq"}
       [] role \in {"any", "int"} -> EscNames \cup UniEscNames \cup QuoteNames \cup NumNames
       [] role = "float" -> EscNames \cup QuoteNames \cup NumNames \cup FloatNames
@@ -474,7 +504,8 @@ TokVerdict(k, role, v, last) ==
                                                              \* the rest is read in the type's own syntax
     CASE v \in {"unterm", "nlq", "popen", "pclose", "badttl", "bogus", "bigtype", "bigclass", "long", "dirgarbage",
                 "hugetype", "hugeclass", "hugeunit", "gr-stophuge", "gr-starthuge", "gr-stephuge", "gm-offhuge", "gm-widthhuge",
-                "gm-width9"} -> "err"        \* (a 999999999-wide field fits no label)
+                "gm-width9", "gm2-offhuge", "gm2-widthhuge", "gm2-width9", "rm-offhuge", "rm-widthhuge", "rm-width9",
+                "rm2-offhuge", "rm2-widthhuge", "rm2-width9"} -> "err"        \* (a 999999999-wide field fits no label or address)
       [] v = "empty" -> IF last THEN "free" ELSE "err"       \* "a." is a name, "a..b" is not
       [] v = "emptyq" -> IF role \in {"str", "any", "float", "ghex"} THEN "free" ELSE "err"
       [] v = "esc0" -> IF role = "label" /\ last THEN "err" ELSE "free"
